@@ -1,6 +1,7 @@
 package jschema
 
 import (
+	"encoding/json"
 	"fmt"
 
 	schema "github.com/jsightapi/jsight-schema-core"
@@ -73,7 +74,18 @@ func FromRSchema(s *regex.RSchema) (*JSchema, error) {
 		return nil, errs.ErrRegexExample.F(err)
 	}
 
-	ss := New(s.File.Name(), fmt.Sprintf("%q // {regex: %q}", example, pattern))
+	// Both texts are read back as JSON strings, so they are written as JSON
+	// strings: Go's %q would emit escapes (\x01, \a, \U0001F600) JSON does not have.
+	exampleJSON, err := json.Marshal(string(example))
+	if err != nil {
+		return nil, errs.ErrRegexExample.F(err)
+	}
+	patternJSON, err := json.Marshal(pattern)
+	if err != nil {
+		return nil, errs.ErrRegexExample.F(err)
+	}
+
+	ss := New(s.File.Name(), fmt.Sprintf("%s // {regex: %s}", exampleJSON, patternJSON))
 	if err = ss.load(); err != nil {
 		return nil, errs.ErrLoadError.F(err)
 	}
